@@ -1,0 +1,13 @@
+//go:build verif
+
+// Contracts for package clients/handlers (comment-only; read by /verif/govc).
+
+package handlers
+
+//@ type baseHandler invariant [made] self.done != nil && self.commands != nil
+//@ type MaprHandler invariant [aggregate] self.aggregate != nil
+
+//@ func (*baseHandler).handleMessage
+//@   assigns nothing
+//@ func (*HealthHandler).handleMessage
+//@   assigns h.baseHandler.status
